@@ -6,6 +6,8 @@ ALL = ["C%02d" % i for i in range(1, 21)]
 BASE_OFF = "cd /repo && env -u ASCMHL_VERIF /venv/bin/python -m pytest -ra -q -p no:cacheprovider --timeout=900 --continue-on-collection-errors"
 T = "in-process CliRunner on tmpfs as accelerator, every alarm re-run in one fresh subprocess per command; CPython, hashlib, xxhash, lxml/libxml2 trusted; bounds and alphabets as listed in the evidence file"
 CHECKS = {
+ "C13": ("E4", "model_checking", "exhaustive enumeration of mount locations x invocation forms and of all directory-listing permutations (os.listdir/os.scandir seam) on the real code, byte comparison with a baseline",
+         "The same tree is sealed under five kinds of ancestor folders (incl. names matching ignore patterns) x four invocation forms, and under every combination of permutations of every directory listing; the produced ascmhl folders must be byte-identical to the baseline and the baseline's sealed tree must verify at every location.", "4 C13"),
  "C15": ("E3", "fault_enumeration", "exhaustive crash-point enumeration on the logged write history of the real create (every log prefix, torn last write), recovery by the real commands",
          "One uninterrupted create per scenario is executed with a write-logging seam (cross-checked against audit events and by replaying the log); every prefix of the log, with the last write torn at several (thorough: all) positions, is materialised as a crash state and recovered with info, verify and create; old manifests, chain entries, visibility of partial files, exit codes (must equal the answer before or after the completed run) and the C06 relation after recovery are judged.", "4 C15"),
  "C05": ("E3", "fault_enumeration", "exhaustive enumeration of tamper faults (every manifest x edit kind x position) x every history-reading command on the real code",
